@@ -220,6 +220,39 @@ func resolveRoles(p *Program) {
 								}
 							}
 						case *ssa.Call:
+							if prm == nil && depth == 0 && len(x.Call.Args) > 0 && !x.Call.IsInvoke() {
+								// the only field stored by fn, stored through a method of a by-value part of r.typ
+								// (s.permits.tryAcquire()): the part's field that method stores into
+								cal := calleeOf(&x.Call)
+								fa, isFA := x.Call.Args[0].(*ssa.FieldAddr)
+								if cal == nil || !isFA || !p.InScope[cal] || len(cal.Blocks) == 0 || len(cal.Params) == 0 || cal.Signature.Recv() == nil {
+									continue
+								}
+								outer, okO := fieldRefOfAddrRaw(fa)
+								if !okO || outer.Type != r.typ || outer.Pkg != r.pkg {
+									continue
+								}
+								if _, isS := fa.Type().(*types.Pointer).Elem().Underlying().(*types.Struct); !isS {
+									continue
+								}
+								for _, b2 := range cal.Blocks {
+									for _, in2 := range b2.Instrs {
+										st2, isSt := in2.(*ssa.Store)
+										if !isSt {
+											continue
+										}
+										fa2, isFA2 := st2.Addr.(*ssa.FieldAddr)
+										if !isFA2 || fa2.X != ssa.Value(cal.Params[0]) {
+											continue
+										}
+										if in, okIn := fieldRefOfRaw(fa2.X.Type(), fa2.Field); okIn && in.Pkg == r.pkg {
+											cands[in.Field] = true
+											partOf[in.Field] = in.Type
+										}
+									}
+								}
+								continue
+							}
 							// delegation to a base registrar: follow the parameter one level
 							if prm == nil || depth > 1 {
 								continue
@@ -835,6 +868,33 @@ func funcRoles() []funcRole {
 					continue
 				}
 				if _, isFn := sig.Results().At(0).Type().Underlying().(*types.Signature); !isFn {
+					continue
+				}
+				if found != nil {
+					return nil
+				}
+				found = f
+			}
+			return found
+		}},
+		{"internal.FailureResult", func(p *Program) *ssa.Function {
+			// the result constructor moved out of package internal: the only package-level function in scope that
+			// takes one error and returns a *PolicyResult; what it builds is checked by the failure-result rule
+			var found *ssa.Function
+			for _, f := range p.Funcs {
+				if f.Pkg == nil || f.Parent() != nil || f.Signature.Recv() != nil || !p.InScope[f] {
+					continue
+				}
+				sig := f.Signature
+				if sig.Params().Len() != 1 || sig.Results().Len() != 1 || sig.Params().At(0).Type().String() != "error" {
+					continue
+				}
+				pt, ok := sig.Results().At(0).Type().(*types.Pointer)
+				if !ok {
+					continue
+				}
+				n, ok := pt.Elem().(*types.Named)
+				if !ok || n.Obj().Name() != "PolicyResult" {
 					continue
 				}
 				if found != nil {
